@@ -197,8 +197,9 @@ let run_strategy (c : cfg) (s : strat) : result option =
   while !result = None && !budget > 0 && !ticks > 0 do
     (match !st.w with WDone r -> result := Some r | _ -> ());
     if !result = None then begin
+      let tick_useful = (match !st.w with WFlag | WTry | WDeadline | WSleep _ -> true | _ -> false) in
       let cands = [|
-        Some Tick; child_choice (); reader_choice S1; reader_choice S2;
+        (if tick_useful then Some Tick else None); child_choice (); reader_choice S1; reader_choice S2;
         (if waiter_enabled () then Some Waiter else None) |] in
       let total = ref 0 in
       Array.iteri (fun i ch -> if ch <> None then total := !total + s.wt.(i)) cands;
@@ -254,8 +255,13 @@ let strategies (c : cfg) : strat list =
   add { base with wt = [| 1; 0; 0; 0; 1 |]; seed = 8 };
   let all = List.rev !l in
   (* big cases: every third strategy (list operations of the extracted model are linear) *)
-  if List.length c.out1 + List.length c.out2 > 30000
-  then List.filteri (fun i _ -> i mod 3 = 0 || i >= List.length all - 2) all
+  let total = List.length c.out1 + List.length c.out2 in
+  if total > 30000
+  then List.map (fun s -> { s with rd_max = max s.rd_max 4000 })
+         (List.filteri (fun i _ -> i mod 5 = 0 || i >= List.length all - 2) all)
+  else if total > 4000
+  then List.map (fun s -> { s with rd_max = max s.rd_max 500 })
+         (List.filteri (fun i _ -> i mod 2 = 0 || i >= List.length all - 2) all)
   else all
 
 (* ---------------------------------------------------------------- the mode *)
